@@ -538,10 +538,17 @@ class SimFS:
         tempfile.mkdtemp = self.mkdtemp
         shutil.rmtree = self.rmtree
         subprocess.Popen = self.popen
+        # names bound by `from subprocess import Popen` / `from io import open` in the package under test
+        from simkit.core import NamedImports
+        self._named = [NamedImports(_real_popen, self.popen), NamedImports(_real_open, self.open)]
+        for n in self._named:
+            n.__enter__()
         self._installed = True
 
     def uninstall(self):
         if self._installed:
             (builtins.open, io.open, os.remove, os.unlink, tempfile.mkdtemp, shutil.rmtree, subprocess.Popen) = self._saved
             (io.FileIO, os.open, os.write, os.close, os.replace, os.rename) = self._saved_raw
+            for n in self._named:
+                n.__exit__()
             self._installed = False
